@@ -77,7 +77,8 @@ def run(ctx, rep, model=True):
         truth = plotgen.materialize(spec, path)
         names = list(dedup_names(spec["fields"]))
         nlev = len(spec["levels"])
-        forms = [names[0], [names[-1], "grid_level"], "all", list(names), ["grid_level"]]
+        forms = [names[0], [names[-1], "grid_level"], "all", list(names), ["grid_level"], list(names)[::-1],
+                 ["grid_level"] + list(names)[::-1]]
         for j, f in enumerate(forms):
             limit = [None, 0, nlev - 1, max(nlev - 2, 0)][(i + j) % 4]
             serial = (i + j) % 2 == 0
